@@ -441,6 +441,9 @@ def check_result_store(run, ctx):
             if other:
                 run.bad('C09-S1', key + '/extra-effects', '%s also performs %s besides its Ok-only store: an Err outcome then changes what is cached (e.g. drops an Ok stored by a '
                         'concurrent or earlier call)' % (key, other), site=body.name, oracle='an Err outcome has no effect on the cache')
+            elif sb != ok_target and any(x in body.exits() for x in body.reachable(ok_target, blocked=(sb,))):
+                run.bad('C09-S1', key + '/ok-not-always-stored', '%s can return from the Ok arm without storing: an Ok result (e.g. the refreshed value after invalidate_on reported the '
+                        'old one stale) is then dropped and the body runs again on every call' % key, site=body.name, oracle='every path through the Ok arm reaches the store')
             elif not in_ok:
                 run.bad('C09-S1', key + '/stores-err', '%s reaches its store call from the Err arm: Err values are cached' % key, site=body.name, oracle='store control-dependent on discriminant == Ok')
             elif not payload_ok or keyarg != ('param', 2):
